@@ -65,7 +65,7 @@ def gen_history(rng, stream):
 def gen_fine(rng):
     """eight-decimal quantities, a fee in basis points and arbitrary prices: qty x price and qty x (1 - fee) have more than eight decimals, so the
     float products are not exact; every order fits with a margin (no decision sits on the rejection boundary), compared up to 1e-10"""
-    qtys = [0.01234567, 0.00340001, 0.25, 0.1, 0.07654321, 0.5, 0.00012345]
+    qtys = [0.01234567, 0.00340001, 0.25, 0.1, 0.07654321, 0.5, 0.00012345, 0.6, 1.0]
     prices = [43210.5, 101.37, 0.031234567, 2750.125, 19999.99]
     fee = rng.choice([0.001, 0.0004, 0.00075, 0.0])
     balance = 1000000.0
@@ -124,6 +124,43 @@ def run_impl(balance, fee, ops):
             obs.append(('error', type(ex).__name__))
             break
     return obs
+
+
+def sell_all_probe(balance, fee, ops):
+    """'position size equals the base balance', decided on the implementation alone: after the history every resting order is cancelled and the WHOLE position
+    (the float the position object reports) is sold at market; a cash account that holds exactly that much base accepts the order, and the fill leaves no base"""
+    from . import driver
+    from jesse.exceptions import InsufficientBalance
+    e = driver.session('spot', fee=fee, balance=balance)
+    p = driver.position('BTC-USDT')
+    p.current_price = 64.0
+    objs = {}
+    try:
+        for op in ops:
+            if op[0] == 'submit':
+                _, oid, side, typ, q, price, ro = op
+                objs[oid] = driver.submit('BTC-USDT', side, typ, q, price, reduce_only=ro)
+            elif op[0] == 'execute':
+                if op[1] in objs: objs[op[1]].execute()
+            else:
+                if op[1] in objs: objs[op[1]].cancel()
+        for o in objs.values():
+            o.cancel()
+    except Exception:
+        return None
+    held, pq = e.assets['BTC'], p.qty
+    if not pq > 0:
+        return None
+    try:
+        o = driver.submit('BTC-USDT', 'sell', 'MARKET', pq, 64.0, reduce_only=False)
+        o.execute()
+    except InsufficientBalance:
+        return {'what': 'selling exactly the reported position was rejected', 'position_qty': repr(pq), 'base_balance': repr(held)}
+    except Exception as ex:
+        return {'what': 'selling exactly the reported position raised ' + type(ex).__name__, 'position_qty': repr(pq), 'base_balance': repr(held)}
+    if abs(e.assets['BTC']) > 1e-10 or abs(p.qty) > 1e-10:
+        return {'what': 'base left after selling the whole position', 'position_qty': repr(pq), 'base_balance': repr(held), 'base_after': repr(e.assets['BTC']), 'position_after': repr(p.qty)}
+    return 'ok'
 
 
 def c_op(op):
@@ -204,6 +241,8 @@ def run(tier, seed, replay=None):
     # the fine stream: inexact float products, compared up to 1e-10
     fine = [gen_fine(rng) for _ in range(150 if tier == 'quick' else 2000)]
     fobs = [run_impl(*c) for c in fine]
+    probes = [sell_all_probe(*c) if (ob and all(x[0] is True for x in ob)) else None for c, ob in zip(fine, fobs)]
+    res.extra.update({'sell_whole_position_probes': sum(1 for x in probes if x is not None)})
     fjobs = []
     for i in range(0, len(fine), SH):
         body = ';\n'.join(f'({num(b)}, {num(f_)}, {C.clist([c_op(o) for o in ops[:len(ob)]])}, {C.clist([c_obs(x) for x in ob])})'
@@ -240,6 +279,11 @@ def run(tier, seed, replay=None):
         seen.add('spot_fine')
         res.violation('spot_balances_differ_from_the_cash_account_beyond_1e-10', 'spot balances / position differ from the reference cash account by more than 1e-10 '
                       'on quantities with eight decimals', {'balance': b, 'fee': f_, 'ops': ops[:len(fobs[i])], 'implementation_observed': fobs[i]})
+    for i, pr_ in enumerate(probes):
+        if isinstance(pr_, dict):
+            b, f_, ops = fine[i]
+            res.violation('position_size_is_not_the_base_balance', 'position size equals the base balance: ' + pr_['what'], dict(pr_, balance=b, fee=f_, ops=ops))
+            break
     for i in sorted(bad_ref, key=lambda i: len(cases[i][2])):
         b, f_, ops = cases[i]
         site = 'uncovered_sell_execution' if uncovered(b, f_, ops, obs[i]) else 'spot:' + '+'.join(sorted({o[0] + (':' + o[2] + ':' + o[3] if o[0] == 'submit' else '') for o in ops[:len(obs[i])]}))[:120]
